@@ -77,8 +77,11 @@ const (
 )
 
 type midElement struct {
-	handler    HandlerFunc
-	start      time.Time
+	handler HandlerFunc
+	// start is the time of the first transmission: it is set when the first write has returned (arm). Until then
+	// the message has not been sent (the write may wait, e.g. for the DTLS handshake) and must neither be
+	// re-sent nor given up on account of the retransmission timer.
+	start      atomic.Time
 	deadline   time.Time
 	retransmit atomic.Uint32
 
@@ -113,17 +116,30 @@ func (m *midElement) IsExpired(now time.Time, maxRetransmit uint32, acknowledgeT
 		// remove element if deadline is exceeded
 		return true
 	}
+	start := m.start.Load()
+	if start.IsZero() {
+		return false
+	}
 	retransmit := m.retransmit.Load()
 	if retransmit < maxRetransmit {
 		return false
 	}
 	// the last transmission gets its acknowledge timeout as well: it is not given up at the very next
 	// housekeeping tick (with maxRetransmit 0 that was the first tick after the message went out)
-	return now.After(m.start.Add(acknowledgeTimeout * time.Duration(retransmit+1)))
+	return now.After(start.Add(acknowledgeTimeout * time.Duration(retransmit+1)))
+}
+
+// arm starts the retransmission timer: the first transmission has just left.
+func (m *midElement) arm() {
+	m.start.Store(time.Now())
 }
 
 func (m *midElement) Retransmit(now time.Time, acknowledgeTimeout time.Duration) bool {
-	if now.After(m.start.Add(acknowledgeTimeout * time.Duration(m.retransmit.Load()+1))) {
+	start := m.start.Load()
+	if start.IsZero() {
+		return false
+	}
+	if now.After(start.Add(acknowledgeTimeout * time.Duration(m.retransmit.Load()+1))) {
 		m.retransmit.Inc()
 		// retransmit
 		return true
@@ -543,8 +559,9 @@ func (cc *Conn) waitForAcknowledge(req *pool.Message, waitForResponseChan chan s
 	}
 }
 
-func (cc *Conn) prepareWriteMessage(req *pool.Message, handler HandlerFunc) (func(), error) {
+func (cc *Conn) prepareWriteMessage(req *pool.Message, handler HandlerFunc) (closeFn func(), arm func(), err error) {
 	var closeFns fn.FuncList
+	arm = func() {}
 
 	// Only confirmable messages ever match an message ID
 	switch req.Type() {
@@ -552,28 +569,29 @@ func (cc *Conn) prepareWriteMessage(req *pool.Message, handler HandlerFunc) (fun
 		msg := cc.AcquireMessage(req.Context())
 		if err := req.Clone(msg); err != nil {
 			cc.ReleaseMessage(msg)
-			return nil, fmt.Errorf("cannot clone message: %w", err)
+			return nil, nil, fmt.Errorf("cannot clone message: %w", err)
 		}
 		if req.Code() >= codes.GET && req.Code() <= codes.DELETE {
 			if err := cc.acquireOutstandingInteraction(req.Context()); err != nil {
-				return nil, err
+				return nil, nil, err
 			}
 			closeFns = append(closeFns, func() {
 				cc.releaseOutstandingInteraction()
 			})
 		}
 		deadline, _ := req.Context().Deadline()
-		if _, loaded := cc.midHandlerContainer.LoadOrStore(req.MessageID(), &midElement{
+		elem := &midElement{
 			handler:  handler,
-			start:    time.Now(),
 			deadline: deadline,
 			private: struct {
 				sync.Mutex
 				msg *pool.Message
 			}{msg: msg},
-		}); loaded {
+		}
+		arm = elem.arm
+		if _, loaded := cc.midHandlerContainer.LoadOrStore(req.MessageID(), elem); loaded {
 			closeFns.Execute()
-			return nil, fmt.Errorf("cannot insert mid(%v) handler: %w", req.MessageID(), coapErrors.ErrKeyAlreadyExists)
+			return nil, nil, fmt.Errorf("cannot insert mid(%v) handler: %w", req.MessageID(), coapErrors.ErrKeyAlreadyExists)
 		}
 		closeFns = append(closeFns, func() {
 			_, _ = cc.midHandlerContainer.LoadAndDelete(req.MessageID())
@@ -584,13 +602,13 @@ func (cc *Conn) prepareWriteMessage(req *pool.Message, handler HandlerFunc) (fun
 		}
 		*/
 	}
-	return closeFns.ToFunction(), nil
+	return closeFns.ToFunction(), arm, nil
 }
 
 func (cc *Conn) writeMessageAsync(req *pool.Message) error {
 	req.UpsertType(message.Confirmable)
 	req.UpsertMessageID(cc.GetMessageID())
-	closeFn, err := cc.prepareWriteMessage(req, func(*responsewriter.ResponseWriter[*Conn], *pool.Message) {
+	closeFn, _, err := cc.prepareWriteMessage(req, func(*responsewriter.ResponseWriter[*Conn], *pool.Message) {
 		// do nothing
 	})
 	if err != nil {
@@ -612,7 +630,7 @@ func (cc *Conn) writeMessage(req *pool.Message) error {
 		return cc.writeMessageAsync(req)
 	}
 	respChan := make(chan struct{})
-	closeFn, err := cc.prepareWriteMessage(req, func(*responsewriter.ResponseWriter[*Conn], *pool.Message) {
+	closeFn, arm, err := cc.prepareWriteMessage(req, func(*responsewriter.ResponseWriter[*Conn], *pool.Message) {
 		close(respChan)
 	})
 	if err != nil {
@@ -622,6 +640,7 @@ func (cc *Conn) writeMessage(req *pool.Message) error {
 	if err := cc.session.WriteMessage(req); err != nil {
 		return fmt.Errorf(errFmtWriteRequest, err)
 	}
+	arm()
 	if err := cc.waitForAcknowledge(req, respChan); err != nil {
 		return fmt.Errorf(errFmtWriteRequest, err)
 	}
@@ -655,7 +674,7 @@ func (cc *Conn) AsyncPing(receivedPong func()) (func(), error) {
 	req.SetCode(codes.Empty)
 	mid := cc.GetMessageID()
 	req.SetMessageID(mid)
-	if _, loaded := cc.midHandlerContainer.LoadOrStore(mid, &midElement{
+	pingElem := &midElement{
 		handler: func(_ *responsewriter.ResponseWriter[*Conn], r *pool.Message) {
 			if r.Type() == message.Reset || r.Type() == message.Acknowledgement {
 				// not on this goroutine: it reads the connection, and the callback may issue a request whose
@@ -663,13 +682,13 @@ func (cc *Conn) AsyncPing(receivedPong func()) (func(), error) {
 				go receivedPong()
 			}
 		},
-		start:    time.Now(),
 		deadline: time.Time{}, // no deadline
 		private: struct {
 			sync.Mutex
 			msg *pool.Message
 		}{msg: req},
-	}); loaded {
+	}
+	if _, loaded := cc.midHandlerContainer.LoadOrStore(mid, pingElem); loaded {
 		return nil, fmt.Errorf("cannot insert mid(%v) handler: %w", mid, coapErrors.ErrKeyAlreadyExists)
 	}
 	removeMidHandler := func() {
@@ -681,6 +700,7 @@ func (cc *Conn) AsyncPing(receivedPong func()) (func(), error) {
 		removeMidHandler()
 		return nil, fmt.Errorf(errFmtWriteRequest, err)
 	}
+	pingElem.arm()
 	// a ping issued from a handler must not stop incoming messages (incl. the pong) from being read
 	cc.receivedMessageReader.TryToReplaceLoop()
 	return removeMidHandler, nil
